@@ -36,7 +36,7 @@ PROPERTY_FILES = ['Properties/C05.v']
 REFUTED_FILES = ['Refuted/C05.v']
 MODEL_FILES = ['SF/Hier.v', 'SF/HierVal.v']
 IMPORTS = 'Require Import SF.Prelude SF.PySlice SF.Dtype SF.Value SF.Hier SF.HierVal.'
-RULE = ('trees of depth 2..4 with ragged fan-out 1..3, labels drawn per depth from small pools (so inner labels repeat under different '
+RULE = ('trees of depth 2..4 with ragged fan-out 1..5, labels drawn per depth from small pools (so inner labels repeat under different '
         'parents) in random order, per-depth kinds str/int/date; every construction route; selectors per depth from '
         '{all, label, list, label slice} plus Boolean masks at the innermost depth / as whole key; GO histories of append/extend/read. '
         'Exhaustive stratum (thorough tier, api:hloc:small): all 90 depth-2 trees with root labels a | a,b and leaf sequences of <= 2 distinct labels of {1,2,3} x every selector pair of the menu {:, label, ordered list of <= 2 labels, label slice with optional ends} (40500 keys) + one random innermost mask per tree; quick tier samples 900 of them. '
@@ -330,7 +330,7 @@ POOLS = {
 }
 
 
-def gen_shape(rng, depth, kinds, fan_max, pool_n=4):
+def gen_shape(rng, depth, kinds, fan_max, pool_n=5):
     '''Nested shape: inner = list of (label, sub); leaf = list of labels. Labels per depth from a small pool, random order.'''
     def rec(d):
         pool = POOLS[kinds[d]][:pool_n]
@@ -482,7 +482,23 @@ def product_levels(shape):
 
 # ----------------------------------------------------------------------------- observations of one index
 def observe_views(ctx, ih, rows, route, extra_tags=None):
-    '''Cases comparing every view of `ih` with the tree model M (fed the real tree) and the tuple spec S.'''
+    '''Cases comparing every view of `ih` with the tree model M (fed the real tree) and the tuple spec S.
+    A view that raises on a successfully built index is itself a violation (reported, never a harness crash).'''
+    done = []
+    try:
+        for c in _observe_views(ctx, ih, rows, route, extra_tags):
+            done.append(c.kind)
+            yield c
+    except Exception as e:  # noqa
+        import traceback
+        where = traceback.extract_tb(e.__traceback__)[-1]
+        yield Case('api:views:raised', {'route': route, 'rows': [[jl(x) for x in r] for r in rows],
+                                        'observe': 'list(ih), values, values_at_depth, label_widths_at_depth, iloc', 'after': done[-1:] },
+                   py_fail=f'a view of an index built through {route} raised {type(e).__name__}: {e} ({where.name}:{where.lineno})',
+                   tags={'route': route, 'view': 'raised'}, key=f'raised|{route}|{rows_lit(rows)}')
+
+
+def _observe_views(ctx, ih, rows, route, extra_tags=None):
     tags = {'route': route}
     tags.update(extra_tags or {})
     tree = tree_of(ih._levels)
@@ -699,7 +715,7 @@ def random_key(rng, rows, kinds, allow_short=True):
     anchor = rng.choice(rows)
     key = []
     for d in range(klen):
-        pool = POOLS[kinds[d]][:4]
+        pool = POOLS[kinds[d]][:5]
         group = sorted({jl(r[d]): r[d] for r in rows if r[:d] == anchor[:d]}.items(), key=lambda kv: str(kv[0]))
         key.append(gen_sel(rng, pool, n, inner=(d == depth - 1), group_labels=[v for _, v in group]))
     return key
@@ -740,11 +756,11 @@ def corpus_cases(ctx):
 
 def construct_cases(ctx):
     rng = ctx.rng
-    n_trees = ctx.n(14, 120)
+    n_trees = ctx.n(14, 90)
     for i in range(n_trees):
         depth = rng.choice([2, 2, 3, 3, 3, 4])
         kinds = gen_kinds(rng, depth)
-        shape = gen_shape(rng, depth, kinds, fan_max=3 if depth < 4 else 2)
+        shape = gen_shape(rng, depth, kinds, fan_max=rng.choice([2, 3, 3, 5]) if depth < 4 else 2)
         rows = shape_rows(shape)
         routes = build_routes(rows, shape, kinds)
         names = sorted(routes)
@@ -816,10 +832,10 @@ def hloc_cases(ctx):
         yield hloc_case(ctx, ih, tree, rows, key, 'small-depth2', stratum='api:hloc:small')
     ctx.count(f'hloc-small-space:{total}')
     # -- random bigger trees, all depths
-    for _ in range(ctx.n(40, 600)):
+    for _ in range(ctx.n(40, 400)):
         depth = rng.choice([2, 3, 3, 4])
         kinds = gen_kinds(rng, depth)
-        shape = gen_shape(rng, depth, kinds, fan_max=3 if depth < 4 else 2)
+        shape = gen_shape(rng, depth, kinds, fan_max=rng.choice([2, 3, 3, 5]) if depth < 4 else 2)
         rows = shape_rows(shape)
         route = rng.choice(['from_labels', 'go_from_labels', 'index_constructors', 'go_appends', 'from_tree'])
         ih = build_routes(rows, shape, kinds)[route]()
@@ -913,14 +929,17 @@ def go_history(ctx, rng, rows0, kinds, script, stratum='api:go'):
             after = tree_of(g._levels)
             obs = f'(Err {lit.s(lit.err_class(err))})' if err is not None else f'(Ok {tree_lit(after)})'
             want = ref + [tuple(key)] if err is None else ref
-            got = snapshot(g) if err is None or True else None
             tags = {'op': 'append', 'keyclass': cls}
             if d4_class(ref, key):
                 tags['finding'] = 'C05-append-last-edge'
             problems = []
-            if [row_lit(r) for r in got] != [row_lit(r) for r in want]:
-                problems.append(f'after append({[jl(x) for x in key]}) -> {"ok" if err is None else type(err).__name__}: list(ih) = {[[jl(x) for x in r] for r in got][-3:]} (tail), expected tail {[[jl(x) for x in r] for r in want][-3:]}')
-            problems += views_disagree(g, got)
+            try:
+                got = snapshot(g)
+                if [row_lit(r) for r in got] != [row_lit(r) for r in want]:
+                    problems.append(f'after append({[jl(x) for x in key]}) -> {"ok" if err is None else type(err).__name__}: list(ih) = {[[jl(x) for x in r] for r in got][-3:]} (tail), expected tail {[[jl(x) for x in r] for r in want][-3:]}')
+                problems += views_disagree(g, got)
+            except Exception as e:  # noqa
+                problems.append(f'views raise {type(e).__name__} after append({[jl(x) for x in key]}) -> {"ok" if err is None else type(err).__name__}')
             yield Case(stratum + ':append',
                        {'start_rows': [[jl(x) for x in r] for r in rows0], 'history': steps_json + [['append', [jl(x) for x in key]]],
                         'observe': 'outcome, tree, list(ih), values, values_at_depth, len after the last step', 'observed': obs},
@@ -986,7 +1005,13 @@ def go_history(ctx, rng, rows0, kinds, script, stratum='api:go'):
                 ops_lit.append('ORead')
     if ok_history and ops_lit:
         final = tree_of(g._levels)
-        cols = [[canon(x) for x in lit.array_vals(g.values_at_depth(d))] for d in range(depth)]
+        try:
+            cols = [[canon(x) for x in lit.array_vals(g.values_at_depth(d))] for d in range(depth)]
+        except Exception as e:  # noqa
+            yield Case(stratum + ':history', {'start_rows': [[jl(x) for x in r] for r in rows0], 'history': steps_json},
+                       py_fail=f'values_at_depth raised {type(e).__name__} after the history', tags={'op': 'history'},
+                       key=f'hist|{tree_lit(t0)}|{ops_lit}')
+            return
         cl = lit.lst([lit.lst([lab(x) for x in c]) for c in cols])
         yield Case(stratum + ':history',
                    {'start_rows': [[jl(x) for x in r] for r in rows0], 'history': steps_json, 'observe': 'final tree and per-depth arrays'},
@@ -1017,7 +1042,7 @@ def views_disagree(ih, rows):
 
 def go_cases(ctx):
     rng = ctx.rng
-    for _ in range(ctx.n(30, 400)):
+    for _ in range(ctx.n(30, 300)):
         depth = rng.choice([2, 3, 3, 4])
         kinds = gen_kinds(rng, depth)
         shape = gen_shape(rng, depth, kinds, fan_max=2)
@@ -1103,9 +1128,30 @@ def malformed_cases(ctx):
                    tags={'op': 'construct', 'malformed': how}, nontrivial=isinstance(ih, Exception), key=f'mal|{rl}')
 
 
+def guard(gen, stratum):
+    '''Run a stratum; an exception that escapes from the implementation (innermost frames inside static_frame /
+    numpy) on inputs inside the claim is a violation of the property, not a crash of the harness.  Exceptions
+    raised by harness code are re-raised (machinery error).'''
+    import traceback
+    try:
+        yield from gen
+    except Exception as e:  # noqa
+        frames = traceback.extract_tb(e.__traceback__)
+        inner = frames[-1].filename.replace('\\', '/')
+        if '/static_frame/' not in inner and '/numpy/' not in inner:
+            raise
+        ours = [f for f in frames if f.filename.endswith('c05.py')]
+        at = f'{ours[-1].name}:{ours[-1].lineno}' if ours else '?'
+        sf_frame = [f for f in frames if '/static_frame/' in f.filename.replace('\\', '/')]
+        where = f'{sf_frame[-1].filename.split("/static_frame/")[-1]}:{sf_frame[-1].lineno} {sf_frame[-1].name}' if sf_frame else inner
+        yield Case(stratum + ':raised', {'stratum': stratum, 'harness_call_site': at, 'raised_in': where, 'error': f'{type(e).__name__}: {e}'[:300]},
+                   py_fail=f'the implementation raised {type(e).__name__} ({where}) on an input inside the claim (harness {at}): {e}'[:400],
+                   tags={'op': 'raised', 'stratum': stratum}, key=f'raised|{stratum}|{at}|{type(e).__name__}')
+
+
 def cases(ctx):
-    yield from corpus_cases(ctx)
-    yield from construct_cases(ctx)
-    yield from hloc_cases(ctx)
-    yield from go_cases(ctx)
-    yield from malformed_cases(ctx)
+    yield from guard(corpus_cases(ctx), 'corpus')
+    yield from guard(construct_cases(ctx), 'api:construct')
+    yield from guard(hloc_cases(ctx), 'api:hloc')
+    yield from guard(go_cases(ctx), 'api:go')
+    yield from guard(malformed_cases(ctx), 'malformed')
